@@ -490,6 +490,12 @@ class Lib:
             lo_t = intterm(lo) if lo is not None else z3.IntVal(0)
             hi_t = intterm(hi) if hi is not None else mrows(mval.term)
             return MatV(F('mslice', Mat, Int, Int, Mat)(mval.term, lo_t, hi_t))
+        if isinstance(key, tuple) and key[0] == 'tuple' and len(key[1]) == 2 and key[1][0] == ('slice', None, None, None) \
+                and isinstance(key[1][1], Num):
+            j = intterm(key[1][1])          # M[:, j]: one column
+            if not run.spec_mode:
+                run.emit('safe.index', z3.And(0 <= j, j < mcols(mval.term)), 'column index in range')
+            return SeqV('R', F('mcol', Mat, Int, RSeq)(mval.term, j))
         raise Unsupported('matrix subscript %r' % (key,))
 
     # ---------------------------------------------------------------------------------- setitem
